@@ -23,28 +23,28 @@ CLAIMS = {
  "C03": ("table agreement parser ↔ AST ↔ printer ↔ evaluator ↔ documentation (typed HIR)",
          "Every operator, modifier, radix, literal keyword, data size and encoding is compared as a table row between the grammar extracted from the nom combinators, "
          "the evaluator's arms (canonicalised expression shapes, operand order), Display, and a reference transcribed from the user guide; precedence classes, left "
-         "fold and prefix shadowing are structural. Numeric results are rustc's i64 operations.", "§4 C03"),
+         "fold and prefix shadowing are structural; prefix operators are applied inside-out and no binary result bypasses the operator table. Numeric results are rustc's i64 operations.", "§4 C03"),
  "C04": ("dominance on MIR CFG + type-directed discard detection on HIR + who-may-write table",
          "Shows for the build command that every file-creating or writing call is dominated by the no-error branches of parse and codegen and by the Ok continuation of "
          "merge_segments, that no other function may create files, that every error diagnostic built in the core carries a label unless tabled, that the failure exit "
          "status is a non-zero constant on every path, and that no Result<_, Diagnostics> is thrown away unreported anywhere in non-test code.", "§4 C04"),
  "C05": ("printer/parser coverage rules on typed HIR + extracted combinator grammar",
          "Every field of every AST variant is printed; every trivia-carrying element a parser closure binds is moved, mapped or has its trivia read; elements bound to `_` "
-         "consume constant text or nothing; swallow-all (`rest`) never occurs without a diagnostic; the file parser is all_consuming; case normalisation never touches "
+         "consume constant text or nothing; no bound element reaches the tree only through a lossy Option combinator; swallow-all (`rest`) never occurs without a diagnostic; the file parser is all_consuming; case normalisation never touches "
          "trivia. Partitioning of arbitrary text by the trivia parsers is not decided.", "§4 C05"),
  "C06": ("interprocedural label propagation (taint) over MIR to Assert/allocation/index/loop sinks, with dominating-guard discharge",
          "Every integer the program text controls (literals, evaluated expressions, config values, SymbolData::Number) is followed, field-based and across calls, "
          "to the panicking primitives of the shipped MIR: overflow/division/shift/negation asserts, allocation sizes, indices, loop trip counts; a site is discharged "
          "only by a recognised dominating guard (non-zero switch, constant range check) or a tabled bound. Also: no unwrap on literal conversion, no user string "
-         "into the asserting Identifier constructor, a finite pass bound with a diagnostic, no unwrap/expect on Result<_, Diagnostics>. Absence of all panics, "
+         "into the asserting Identifier constructor, a finite pass bound with a diagnostic, no unwrap/expect on Result<_, Diagnostics> or on I/O results of the command-line path, an import-cycle check in front of the recursive expansion. Absence of all panics, "
          "stack depth and termination of arbitrary programs are not decided.", "§4 C06"),
  "C07": ("structural rules on typed HIR + must-pass-through on MIR",
          "Decides the structural clauses only: polarity of `.if`, iteration domain and `index` binding of `.loop`, positional macro binding after the arity check, "
-         "fresh macro scope, balanced scope/dummy-segment push-pop on every path, and that per-block symbol insertions are not allowed to fail silently. "
+         "fresh macro scope, balanced scope/dummy-segment push-pop on every path, per-block symbol insertions not allowed to fail silently, the scoped macro lookup on every path (must-call with wrapper summaries), argument evaluation in the invoking scope, and the defining edge as a symbol's parent. "
          "Equivalence with the hand expansion on concrete programs is not decided.", "§4 C07"),
  "C08": ("grammar extraction from nom combinators: terminal case and trivia-wrapper rules",
          "Every terminal containing a letter is matched case-insensitively; every terminal is reachable only behind a trivia wrapper unless tabled; text kept from a "
-         "case-insensitive keyword is never compared case-sensitively. Equality of outputs for concrete layout variants is not decided.", "§4 C08"),
+         "case-insensitive keyword is never compared case-sensitively; the empty line comment is accepted. What the hand-written nested-comment scanner computes and equality of outputs for concrete layout variants is not decided.", "§4 C08"),
  "C09": ("table agreement + container-type and shape rules on HIR/MIR",
          "Config keys agree between validator, extractor and reference; banks and segments live in insertion-ordered containers and write_banks walks its Vec; the prg "
          "header bytes and defaults have the documented shape; every documented error has a diagnostic and Ok is returned only without errors; no configured option is "
@@ -55,34 +55,34 @@ CLAIMS = {
          "reported. Environment nondeterminism is not decided.", "§4 C10"),
  "C11": ("must-pass-through on MIR + two interprocedural label propagations (target vs physical address space)",
          "Single emission choke point with a source-map entry of exactly the emitted length on every path; no comparison or subtraction mixes a target-space address with "
-         "a physical one without the relocation offset; macro re-attribution only under the listing option; half-open address lookups. Row layout of listings is not decided.", "§4 C11"),
+         "a physical one without the relocation offset; macro re-attribution only under the listing option and by position; half-open address lookups; no context field is overwritten before and read after a nested activation of the code generator without being restored (re-entrancy analysis); listing rows are cut at address gaps, read from the entry's own segment and written to distinct files. Row layout on concrete programs is not decided.", "§4 C11"),
  "C12": ("formatter coverage and trivia-carrier rules on typed HIR + dominance on MIR",
          "Every text-carrying field of every AST variant is emitted; a Located emitted through `.data` is the token's leading element or tabled (so its comments cannot be lost); "
-         "both comment kinds become comment chunks and only blank lines are suppressed; `mos format` writes only after the whole project parsed. Token-sequence and byte "
+         "both comment kinds become comment chunks and only blank lines are suppressed; `mos format` writes only after the whole project parsed; a chunk-dropping decision never depends on the text of the line. Token-sequence and byte "
          "equality after formatting are not decided.", "§4 C12"),
  "C14": ("field-effect/dominance on MIR, label propagation CLIENTPOS/BYTELEN, hash-order classification, capability table",
-         "Analysis results are reset before any early return and recomputed by every handler that changes the buffer set; request handlers do not mutate the shared analysis; "
+         "Analysis results are reset before any early return and, on every path from where a handler reads the client's text, the text is stored, the project re-analysed and diagnostics republished (must-call with wrapper summaries); diagnostics of files that left the project are withdrawn; request handlers do not mutate the shared analysis; "
          "client positions never reach a panicking index; client URIs are never force-unwrapped; no hash order in answers; positions sent are not byte offsets; advertised "
          "capabilities equal registered handlers. Equality with a fresh server on concrete histories is not decided.", "§4 C14"),
  "C15": ("analysis-path coverage on typed HIR (completeness clause only)",
          "Every expression, interpolated string and block of every statement kind reaches a usage-tracking evaluation on the path the language server takes; the usage database "
-         "and the evaluator resolve through one traversal; usages carry per-segment spans; rename builds its edits from the definition and all recorded usages. Everything "
+         "and the evaluator resolve through one traversal; usages carry per-segment spans; rename builds its edits from the definition and all recorded usages of every import of the defining file, in original-document coordinates and only where the recorded text is the symbol's name. Everything "
          "else in C15 (byte-identical output after rename, renaming back) is not decided.", "§4 C15/C16"),
  "C16": ("analysis-path coverage on typed HIR (completeness clause only)",
-         "Same completeness clause as C15 plus single-resolver agreement and per-segment usage spans. Which occurrence binds where on concrete programs is not decided.", "§4 C15/C16"),
+         "Same completeness clause as C15 plus single-resolver agreement, per-segment usage spans, a per-pass reset of the usage database and a fixed, narrowest-first order among the definitions at a position. Which occurrence binds where on concrete programs is not decided.", "§4 C15/C16"),
  "C17": ("label propagation BYTELEN → LSP positions; dominance and shape rules on HIR",
          "No UTF-8 byte length/offset becomes an LSP character in the formatting answer; formatting only without diagnostics; the language server and the CLI share one formatter "
-         "and the server uses default options; the edit loop advances its position tracker over deleted and unchanged chunks only. The diff-to-edit result on concrete buffers is "
+         "and the server uses default options; the edit loop advances its position tracker over deleted and unchanged chunks only, in merged edits too. The diff-to-edit result on concrete buffers is "
          "not decided.", "§4 C17"),
  "C18": ("field-effect analysis on MIR + table agreement + shape rules on HIR",
          "Pending assertions are never mutated during a run; CPU flag masks and register keys agree with the 6502 and the guide; ram16 byte order; failure iff zero/unevaluable, "
-         "success only at BRK after the assertions at that address; exit status 1 iff a test failed; memory accessors do not slice RAM unchecked. The emulator itself is external.", "§4 C18"),
- "C19": ("guard-liveness must-analysis on MIR (lock-coverage clause only)",
+         "success only at BRK after the assertions at that address; exit status 1 iff a test failed; memory accessors do not slice RAM unchecked; the assertion scan covers every pending element; relocated segments are loaded where the cpu runs them. The emulator itself is external.", "§4 C18"),
+ "C19": ("guard-liveness must-analysis on MIR + shape rules on HIR (lock-coverage and stepping-shape clauses)",
          "In the machine thread every CPU-advancing call happens under a running-state guard taken before the state test; pause reads the program counter under the guard that "
-         "covers the store of Stopped(pc); the breakpoint test dominates every step of a free run. All other interleavings and stepping semantics are not decided.", "§4 C19"),
- "C20": ("ownership/escape rule for Arc::try_unwrap + call-graph rule for blocking accept on joined threads",
+         "covers the store of Stopped(pc); the breakpoint test dominates every step of a free run and searches the shared list under its lock; next/stepOut follow the call depth; breakpoints are kept per source file. All other interleavings and stepping on concrete programs are not decided.", "§4 C19"),
+ "C20": ("ownership/escape rule for Arc::try_unwrap + call-graph rules for blocking primitives + self-deadlock analysis over lock guards (MIR must-liveness)",
          "No force-unwrapped Arc::try_unwrap on an Arc whose clone another long-lived owner keeps; no joined thread can sit in a blocking accept; shutdown notifies handlers "
-         "before answering and the debug session listens for it. Promptness and other session states are not decided.", "§4 C20"),
+         "before answering, never waits on another thread while doing so, and the debug session listens for it and completes the selected operation; no thread asks for a lock it already holds. Promptness is not decided.", "§4 C20"),
 }
 
 NA = {
@@ -117,7 +117,7 @@ m = {
    {"name": "rules", "path": "rules", "serves_properties": sorted(CLAIMS), "kind_free_text": "Python 3 (stdlib only) rule library over the facts: CFG/dominance, call graph, field effects, combinator-grammar extraction, table agreement"},
  ],
  "checks": checks,
- "notes": "Every check re-extracts facts from /repo's current working tree (cache keyed by a hash of all workspace sources). Known genuine defects are listed in known_findings.json and printed as KNOWN-FINDING lines. Thorough tier = quick + release-profile facts + all-targets census + seeded-mutant self-test (mutants/<id>/).",
+ "notes": "Every check re-extracts facts from /repo's current working tree (cache keyed by a hash of all workspace sources). Known genuine defects are listed in known_findings.json and printed as KNOWN-FINDING lines. Thorough tier = quick + release-profile facts + all-targets census + self-test on the seeded variants of mutants/<id>/ (one-instance-broken mutants, behaviour-preserving ok-* variants that must stay silent, and the independently written changes of seeded/).",
  "not_applicable": na,
 }
 json.dump(m, open(os.path.join(V, "MANIFEST.json"), "w"), indent=1)
